@@ -52,7 +52,7 @@ func TestVerif_C31(t *testing.T) {
 		r.Violation("", "C31|fixture-inconsistent", fmt.Sprintf("a v1 repository written by restic itself does not pass the oracle: %v", p), nil)
 		return
 	}
-	bound := vh.Pick(r, 1, 2)
+	bound := vh.Pick(r, 1, 3)
 	seen := map[string]bool{}
 	for _, atomic := range []bool{true, false} {
 		atomic := atomic
